@@ -417,6 +417,9 @@ def alt_target(rng, h):
         h["tnodes"] = rng.choice([2, 5, 9])
     elif h["fam"] == "stack" and h["src"] in ("grow", "fixed"):
         h["tbs"] = rng.choice([64, 200, 1024])
+    elif h["fam"] in ("stack", "pool") and h["src"] == "static":
+        # another block size over a storage of its own: a swap / assignment has to take the block size along
+        h["tbs"] = rng.choice([x for x in (256, 512, 1024) if x != h["bs"]])
     return h
 
 
